@@ -489,3 +489,70 @@ Theorem C01_lost_name_check_refuted :
    out = OOk /\ Contain.statuses (w_led w) = [(1, SDeployed); (2, SSuperseded); (3, SDeployed)]).
 Proof. exact SeqRead.lost_name_check_refuted. Qed.
 Print Assumptions C01_lost_name_check_refuted.
+
+(* ------------------------------------------------------------------ *)
+(* 9. storage READ faults inside the model (Engine/OpsR.v): the four operations with, at every
+   storage read, the error handler the Go code has at that call site.  Run/RunC01.v evaluates these
+   programs on every history the harness ran with a read fault injected into the real driver. *)
+From Helm Require Import Engine.OpsR Engine.OpsRProofs Engine.OpsRLedger.
+
+(* without a read fault they ARE the operations every theorem above speaks about: the same run
+   under every cluster handler, fault plan and state *)
+Theorem C01_read_model_is_ops :
+  forall (K : Type) (kh : forall e : eff, K -> K * resp e * list kev) (dresp : forall e, resp e)
+         (rn ns : string) (o : op),
+    req K kh dresp (erase (op_progR rn ns o)) (op_prog rn ns o).
+Proof. exact erase_op. Qed.
+Print Assumptions C01_read_model_is_ops.
+
+(* the transfer principle: a ledger predicate that survives "record a revision with a status other than
+   deployed" and holds for EVERY crash point of the fault-free program holds for EVERY read-fault position *)
+Theorem C01_read_fault_transfer :
+  forall (K : Type) (kh : forall e : eff, K -> K * resp e * list kev) (dresp : forall e, resp e)
+         (P : list release -> Prop),
+    (forall x l, st x <> SDeployed -> P l -> P (replace_rev x l)) ->
+    forall (A : Type) (p : rprog A), hqQ anyQ p ->
+    forall (n : nat) (f : sfaults) (s : rstate K), crash f = None -> dead s = false ->
+      (forall m, P (led (fst (run K kh dresp (fc f m) (erase p) s)))) ->
+      P (led (fst (run K kh dresp f (erase p) s))) ->
+      P (led (fst (run K kh dresp f (rfail n p) s))).
+Proof. exact rfail_led. Qed.
+Print Assumptions C01_read_fault_transfer.
+
+(* every read handler of every operation is quiet, for every flag assignment *)
+Theorem C01_read_handlers_quiet : forall (rn ns : string) (o : op), hqQ anyQ (op_progR rn ns o).
+Proof. exact hq_op. Qed.
+Print Assumptions C01_read_handlers_quiet.
+
+(* so: whichever storage read of whichever operation fails, under every cluster behaviour, revisions
+   stay unique and at most one is deployed (H2 as above) *)
+Theorem C01_read_fault_ledger :
+  forall (K : Type) (kh : forall e : eff, K -> K * resp e * list kev) (dresp : forall e, resp e)
+         (rn ns : string) (o : op) (n : nat) (l : list release) (k : K),
+    NoDup (revs l) -> ndep l <= 1 -> h2_op o l ->
+    ledger_ok (fst (fst (fst (run_opR K kh dresp rn ns o n l k)))).
+Proof. exact read_fault_ledger. Qed.
+Print Assumptions C01_read_fault_ledger.
+
+(* and along every history whose operations carry a crash point or a read fault *)
+Theorem C01_read_or_crash_history_ledger :
+  forall (K : Type) (kh : forall e : eff, K -> K * resp e * list kev) (dresp : forall e, resp e)
+         (rn ns : string) (h : list (op * fault)) (l : list release) (k : K),
+    (forall o f, In (o, FCrash f) h -> wfail f = None) ->
+    NoDup (revs l) -> ndep l <= 1 -> h2_histF K kh dresp rn ns h l k ->
+    Forall ledger_ok (run_opsF K kh dresp rn ns h l k).
+Proof. exact run_opsF_ledger. Qed.
+Print Assumptions C01_read_or_crash_history_ledger.
+
+Example C01_read_fault_upgrade_instance :
+  map (fun n => run_store_read_fault n SeqRead.ra_op (SeqRead.world_of SeqRead.ra_prefix)) [0; 1; 2; 3]
+  = repeat ([(1, SDeployed); (2, SFailed); (3, SFailed)], OErr EOtherErr, []) 4.
+Proof. exact read_fault_upgrade_instance. Qed.
+Print Assumptions C01_read_fault_upgrade_instance.
+
+Example C01_read_fault_rollback_instance :
+  let '(l, out, t) := run_store_read_fault 3 (OpRollback SeqRead.fl_to1) (SeqRead.world_of SeqRead.rb_prefix) in
+  l = [(1, SSuperseded); (2, SDeployed); (3, SFailed)] /\ out = OErr EOtherErr /\
+  In (TStore "update" 3 SFailed) t.
+Proof. exact read_fault_rollback_instance. Qed.
+Print Assumptions C01_read_fault_rollback_instance.
